@@ -189,6 +189,7 @@ func checkC18(p *Prog, r *Report) {
 
 	checkGoroutinePartition(p, r, g)
 	checkJoinAndWaitFor(p, r)
+	checkWireFullReads(p, r, "C18/TRANSPORT-READS-FULL")
 	r.Assume("an authorised SSH user who runs the general CLI through the exec callback starts a new program run (maincmd.Main); its start-up code is not treated as session code")
 	r.Assume("foreign code calls only function values and interface methods it was handed; the logger/stderr writer supplied by the embedding program is concurrency-safe")
 	if r.Prop == "C18" {
